@@ -455,7 +455,10 @@ impl IoLoop {
                 ConnectionState::ServerClosing(_)
                 | ConnectionState::ClientException
                 | ConnectionState::ClientClosed => {
-                    unreachable!("ch0 slot cannot be readable after it is dropped")
+                    // Stale wake-up: the channel 0 slot was dropped earlier in this same
+                    // batch of events (e.g. a server Close was read from the socket just
+                    // before), but poll had already reported its sources as readable.
+                    // Whoever is waiting on the other end sees the dropped slot.
                 }
             },
             ALLOC_CHANNEL => match &state {
@@ -465,7 +468,10 @@ impl IoLoop {
                 ConnectionState::ServerClosing(_)
                 | ConnectionState::ClientException
                 | ConnectionState::ClientClosed => {
-                    unreachable!("ch0 slot cannot be readable after it is dropped")
+                    // Stale wake-up: the channel 0 slot was dropped earlier in this same
+                    // batch of events (e.g. a server Close was read from the socket just
+                    // before), but poll had already reported its sources as readable.
+                    // Whoever is waiting on the other end sees the dropped slot.
                 }
             },
             Token(0) => match &state {
@@ -475,7 +481,10 @@ impl IoLoop {
                 ConnectionState::ServerClosing(_)
                 | ConnectionState::ClientException
                 | ConnectionState::ClientClosed => {
-                    unreachable!("ch0 slot cannot be readable after it is dropped")
+                    // Stale wake-up: the channel 0 slot was dropped earlier in this same
+                    // batch of events (e.g. a server Close was read from the socket just
+                    // before), but poll had already reported its sources as readable.
+                    // Whoever is waiting on the other end sees the dropped slot.
                 }
             },
             Token(n) if n <= u16::max_value() as usize => {
